@@ -32,6 +32,7 @@ M0 == [calls |-> <<>>,        \* k -> call record (function with a growing domai
        stalled |-> {},        \* transport writes that are blocked because the peer stopped draining
        notices |-> {},        \* wire ids named by cancellation notices handed to the transport
        notifOk |-> {},        \* refs of notifications the transport accepted
+       listens |-> {},        \* wire ids of subscriptions/listen calls (parked by the SDK until cancelled; answered then)
        respBegun |-> {},      \* request tags whose response has been handed to the transport
        usable |-> TRUE]       \* no Close, fault or reader error so far
 
@@ -79,7 +80,7 @@ OnWrBegin(e) ==
   /\ m' = [m EXCEPT !.calls = IF e.kind = "call" /\ e.ref # "" THEN Put(m.calls, e.ref, [Call(e.ref) EXCEPT !.wire = e.id]) ELSE @,
                     !.respBegun = IF e.kind = "resp" /\ e.ref # "" THEN @ \cup {e.ref} ELSE @,
                     !.notices = IF e.kind = "notif" /\ e.method = "notifications/cancelled" THEN @ \cup {e.cref} ELSE @]
-  /\ Check(l, "C02.NoReplyToNotification", (e.kind = "resp" /\ m.ready) => Idn(e.id).deliv > 0)
+  /\ Check(l, "C02.NoReplyToNotification", (e.kind = "resp" /\ m.ready) => (Idn(e.id).deliv > 0 \/ e.id \in m.listens))
   \* on a healthy connection (no Close, no fault: nothing is refused by the connection layer itself) a response
   \* means that the request went through the dispatcher and its handling has started, even if no user handler
   \* was reached: no earlier notification / initialize handler may still be running
@@ -115,6 +116,7 @@ OnDeliver(e) ==
     [] e.kind = "cancel" ->
          m' = [m EXCEPT !.reqs = [r \in DOMAIN m.reqs |-> IF m.reqs[r].id = e.id /\ m.reqs[r].kind = "call"
                                                           THEN [m.reqs[r] EXCEPT !.cancelSent = TRUE] ELSE m.reqs[r]]]
+    [] OTHER -> m' = [m EXCEPT !.listens = @ \cup {e.id}]     \* "listen": judged through Close only
 
 OnHStart(e) ==
   LET q == Req(e.r) IN
